@@ -137,33 +137,45 @@ Definition view_region (r : region) : region_view :=
 (* ---- trigger of the one recorded finding, on the grammar derivation *)
 Fixpoint any_node (p : cnode -> bool) (n : cnode) : bool :=
   let fix go (l : list cnode) : bool := match l with [] => false | x :: l' => any_node p x || go l' end in
+  let fix gs (sg : list (list cnode * list cnode)) : bool :=
+    match sg with [] => false | (b, t) :: sg' => go b || go t || gs sg' end in
   p n ||
   match n with
   | CTag _ cs => go cs
-  | CRuby segs => (fix gs (sg : list (list cnode * list cnode)) : bool :=
-                     match sg with [] => false | (b, t) :: sg' => go b || go t || gs sg' end) segs
+  | COpen _ cs => go cs
+  | CRuby segs => gs segs
+  | CRubyOmit segs => gs segs
   | _ => false
   end.
-(* 7 ruby-structure: ruby inside another tag; a base that is not one line of plain text (markup, a timestamp, a line
-   break); a line break or a ruby in rt *)
+(* 7 ruby-structure: ruby inside another tag; a base that is not one line of plain text (markup, a line break, or a
+   timestamp / ignored end tag between two pieces of text, which splits the base); a line break or a ruby in rt.
+   Ignored end tags before or after the text of a base split nothing and are not covered. *)
 Definition plain_line (n : cnode) : bool :=
   match n with CText t => negb (mem_z 10 t) | CRef _ => true | _ => false end.
 Definition has_lf (n : cnode) : bool := match n with CText t => mem_z 10 t | _ => false end.
+Definition is_end (n : cnode) : bool := match n with CEnd _ => true | _ => false end.
+Definition is_ruby (n : cnode) : bool := match n with CRuby _ | CRubyOmit _ => true | _ => false end.
+Fixpoint drop_ends (l : list cnode) : list cnode :=
+  match l with x :: l' => if is_end x then drop_ends l' else l | [] => [] end.
+Definition base_core (b : list cnode) : list cnode := rev (drop_ends (rev (drop_ends b))).
+Definition segs_bad (segs : list (list cnode * list cnode)) : bool :=
+  existsb (fun sg : list cnode * list cnode =>
+             is_nil (fst sg) || negb (forallb plain_line (base_core (fst sg))) ||
+             existsb (any_node has_lf) (snd sg) ||
+             existsb (any_node is_ruby) (snd sg)) segs.
 Definition ruby_bad (n : cnode) : bool :=
   match n with
-  | CRuby segs =>
-    existsb (fun sg : list cnode * list cnode =>
-               is_nil (fst sg) || negb (forallb plain_line (fst sg)) ||
-               existsb (any_node has_lf) (snd sg) ||
-               existsb (any_node (fun x => match x with CRuby _ => true | _ => false end)) (snd sg)) segs
-  | CTag _ cs => existsb (any_node (fun x => match x with CRuby _ => true | _ => false end)) cs
+  | CRuby segs => segs_bad segs
+  | CRubyOmit segs => segs_bad segs
+  | CTag _ cs => existsb (any_node is_ruby) cs
+  | COpen _ cs => existsb (any_node is_ruby) cs
   | _ => false
   end.
 Definition trig_ruby (l : list cnode) : bool := existsb (any_node ruby_bad) l.
 
 Definition text_finding (l : list cnode) : Z := if trig_ruby l then 7 else 0.
 
-(* ---- clauses.  Codes: 1 printer/text mismatch (harness), 2 exception, 3 cue count, 10 begin/end,
+(* ---- clauses.  Codes: 1 printer/text mismatch or derivation outside cue_text_valid (harness), 2 exception, 3 cue count, 10 begin/end,
    20 region inside the root container, 21 writing mode / text alignment / display alignment, 22 edge fixed by the
    line setting, 30 text runs, 40 region sharing *)
 Definition settings_text (c : cue) : text := flat_map (fun s => 32 :: print_setting s) (c_settings c).
@@ -209,6 +221,8 @@ Definition exc_finding (cs : list cue) : Z :=
 
 Definition judge (f : vfile) (txt : text) (o : outcome) : list (Z * Z) :=
   if negb (text_eqb (print_file f) txt) then [(1, 0)] else
+  (* the derivation must satisfy the side condition under which S gives it a meaning (ignored end tags, unclosed elements) *)
+  if negb (forallb (fun c => cue_text_valid (c_payload c)) (cues_of f)) then [(1, 0)] else
   let cs := shown_cues f in
   match o with
   | Raised _ => [(2, exc_finding cs)]
